@@ -53,7 +53,7 @@ class ForeverContinueWriteHandler(AbstractWriteHandler):
             logger.warning("While decompiling, tried to generate continue; outside loop!")
             raise FallbackToJump()
         if not self._continue_is_implicit():
-            self.decompiler.source_map_add_opcode(self.start_vertex["op"].offset)
+            self.decompiler.source_map_add_opcode_for_edge(self.start_vertex["op"].offset)
             self.decompiler.write_stmnt("continue;  // may be redundant")
         return None
 
